@@ -46,6 +46,7 @@ var gtypes = []struct {
 
 // nGtypes is how many entries of gtypes the alphabet uses.
 var nGtypes = 4
+var thoroughTier bool
 var principals = [][2]int{{0, 1}, {0, 2}, {1, 1}} // (user index, key index)
 var users = []string{"u1", "u2"}
 var reqs = []struct {
@@ -412,6 +413,7 @@ func main() {
 	if r.Thorough() {
 		depth = 5
 		nGtypes = len(gtypes)
+		thoroughTier = true
 	}
 	var alpha []ev
 	for a := range gtypes[:nGtypes] {
@@ -432,7 +434,7 @@ func main() {
 	for a := range clocks {
 		alpha = append(alpha, ev{K: "tick", A: a})
 	}
-	r.SetRule(fmt.Sprintf("explicit-state BFS to depth %d over %d events on a real HopServer with authgrants enabled: AddAuthGrant(type in {shell, cmd a, cmd b} x window in %v x (user,key) in 3 pairs), Login (grant path), Request(session, (cmd,pty) in 6 forms incl. trailing blank, empty, pty+cmd) through the gate startCodex applies (checkCmd), forward clock moves to 10 values around every window edge (thunks.TimeNow, installed for every call into the server); reference: an action starts iff a grant handed to that session at login is unused, matches type and exact command text, and start <= now < expiry, and is then consumed; grants leave the server at login. States deduplicated on (grant map, key set, sessions, clock, reference).", depth, len(alpha), winNames))
+	r.SetRule(fmt.Sprintf("explicit-state BFS to depth %d over %d events on a real HopServer with authgrants enabled: AddAuthGrant(type in {shell, cmd a, cmd b, local-pf; thorough: + remote-pf, acme, the three non-exec types as first event only} x window in %v x (user,key) in 3 pairs), Login (grant path), Request(session, (cmd,pty) in 6 forms incl. trailing blank, empty, pty+cmd) through the gate startCodex applies (checkCmd), forward clock moves to 10 values around every window edge (thunks.TimeNow, installed for every call into the server); reference: an action starts iff a grant handed to that session at login is unused, matches type and exact command text, and start <= now < expiry, and is then consumed; grants leave the server at login. States deduplicated on (grant map, key set, sessions, clock, reference).", depth, len(alpha), winNames))
 	b := &seqx.BFS[ev]{MaxDepth: depth, Workers: r.Workers, Expired: r.Expired,
 		Alphabet: func(path []ev) []ev {
 			// the clock only moves forward
@@ -445,6 +447,12 @@ func main() {
 			var a []ev
 			for _, e := range alpha {
 				if e.K == "tick" && clocks[e.A] <= cur {
+					continue
+				}
+				// thorough tier (depth 5): grants of the non-exec types only as the first event,
+				// which keeps the state space within memory (they must precede the login anyway);
+				// the quick tier (depth 4) has local-pf grants at every position
+				if thoroughTier && e.K == "add" && e.A >= 3 && len(path) > 0 {
 					continue
 				}
 				a = append(a, e)
